@@ -61,8 +61,41 @@ func uniqueCallOf(fn *ssa.Function) ssa.CallInstruction {
 	return nil
 }
 
+// reachedFromSelected: helper fn (or the helper a closure is nested in) is called — through at most
+// three levels of helpers — by a function whose name sel accepts. Rules that select the functions
+// they look at by name use this to follow statements that were moved into a helper.
+func reachedFromSelected(fn *ssa.Function, sel func(string) bool) bool {
+	seen := map[*ssa.Function]bool{}
+	var rec func(f *ssa.Function, depth int) bool
+	rec = func(f *ssa.Function, depth int) bool {
+		f = originOf(topFn(f))
+		if seen[f] || depth > 3 || !isHelper(f) {
+			return false
+		}
+		seen[f] = true
+		uniqueCallOf(f) // builds the call-site index
+		for _, ci := range curProg.uniq[f] {
+			caller := ci.Parent()
+			if sel(fnName(caller)) || sel(fnName(originOf(topFn(caller)))) {
+				return true
+			}
+			if rec(caller, depth+1) {
+				return true
+			}
+		}
+		return false
+	}
+	return rec(fn, 0)
+}
+
 // paramArg: the argument bound to parameter par at the unique call site of its (helper) function.
 func paramArg(par *ssa.Parameter) ssa.Value {
+	// inside the evaluation of a helper's result for one particular call: the arguments of that call
+	for e := dynEnv; e != nil; e = e.outer {
+		if a, ok := e.bind[par]; ok {
+			return a
+		}
+	}
 	fn := par.Parent()
 	if fn != nil && fn.Parent() != nil {
 		return closureParamArg(par)
@@ -461,6 +494,12 @@ func feasibleUnder(fn *ssa.Function, assign func(ssa.Value) (bool, bool)) (map[*
 // assignment, and every feasible return must yield the same known value.
 var helperEvalDepth int
 
+// dynEnv binds the parameters of the helpers whose results are being evaluated (evalHelperResult)
+// to the arguments of the calls under evaluation, so that a recogniser looking at a condition
+// inside the helper compares it with values of the caller (a helper with several call sites has no
+// unique binding otherwise).
+var dynEnv *venv
+
 func evalHelperResult(call *ssa.Call, idx int, assign func(ssa.Value) (bool, bool), depth int) (bool, bool) {
 	sc := call.Call.StaticCallee()
 	if sc == nil || !isHelper(sc) || helperEvalDepth >= 2 {
@@ -468,7 +507,15 @@ func evalHelperResult(call *ssa.Call, idx int, assign func(ssa.Value) (bool, boo
 	}
 	o := originOf(sc)
 	helperEvalDepth++
-	defer func() { helperEvalDepth-- }()
+	saved := dynEnv
+	ne := &venv{bind: map[*ssa.Parameter]ssa.Value{}, outer: dynEnv}
+	for j, par := range o.Params {
+		if j < len(call.Call.Args) {
+			ne.bind[par] = call.Call.Args[j]
+		}
+	}
+	dynEnv = ne
+	defer func() { helperEvalDepth--; dynEnv = saved }()
 	reach, feas := feasibleUnder(o, assign)
 	var evalF func(v ssa.Value, d int) (bool, bool)
 	evalF = func(v ssa.Value, d int) (bool, bool) {
